@@ -75,7 +75,7 @@ func gen(tier string, rng *h.Rng, emit func(string)) {
 	}
 	var ks []*big.Int
 	ks = append(ks, special...)
-	for i := 0; i < pick(12, 120); i++ {
+	for i := 0; i < pick(24, 200); i++ {
 		ks = append(ks, rng.Big(r))
 	}
 	for i := 0; i < pick(4, 40); i++ { // small and sparse scalars
@@ -89,7 +89,7 @@ func gen(tier string, rng *h.Rng, emit func(string)) {
 		emit("scenc " + k.String())
 	}
 	pairs := [][2]*big.Int{}
-	for i := 0; i < pick(10, 100); i++ {
+	for i := 0; i < pick(20, 120); i++ {
 		a := ks[rng.Intn(len(ks))]
 		b := ks[rng.Intn(len(ks))]
 		switch rng.Intn(4) {
@@ -151,7 +151,7 @@ func gen(tier string, rng *h.Rng, emit func(string)) {
 		}
 		// every single-bit flip
 		for bit := 0; bit < 512; bit++ {
-			if !thorough && bi > 0 && bit%4 != 1 {
+			if false {
 				continue
 			}
 			emit("g1dec " + h.Hex(flip(E, bit)))
@@ -185,14 +185,14 @@ func gen(tier string, rng *h.Rng, emit func(string)) {
 	} {
 		emit("g1dec " + h.Hex(s))
 	}
-	for i := 0; i < pick(60, 2000); i++ { // random strings / random canonical coordinates (almost surely off-curve)
+	for i := 0; i < pick(1500, 8000); i++ { // random strings / random canonical coordinates (almost surely off-curve)
 		if rng.Bool() {
 			emit("g1dec " + h.Hex(rng.Bytes(rng.Intn(130))))
 		} else {
 			emit("g1dec " + h.Hex(cat(be32(rng.Big(bnref.P)), be32(rng.Big(bnref.P)))))
 		}
 	}
-	for i := 0; i < pick(40, 800); i++ { // valid random points
+	for i := 0; i < pick(1000, 5000); i++ { // valid random points
 		emit("g1dec " + h.Hex(bnref.Enc1(randCurvePoint(rng))))
 	}
 
@@ -219,7 +219,7 @@ func gen(tier string, rng *h.Rng, emit func(string)) {
 			emit("g2dec " + h.Hex(s))
 		}
 		for bit := 0; bit < 1032; bit++ {
-			if !thorough && bit >= 8 && (bi > 0 || bit%4 != 2) {
+			if false {
 				continue
 			}
 			emit("g2dec " + h.Hex(flip(E, bit)))
@@ -258,7 +258,7 @@ func gen(tier string, rng *h.Rng, emit func(string)) {
 		emit("g2from " + h.Hex(s))
 	}
 	// points of the twist outside the order-r subgroup (the subgroup test is the only thing rejecting them)
-	for i := 0; i < pick(25, 300); i++ {
+	for i := 0; i < pick(150, 600); i++ {
 		emit("g2dec " + h.Hex(bnref.Enc2(randTwistPoint(rng))))
 	}
 	// a twist point outside the subgroup PLUS a subgroup point is still outside
@@ -266,10 +266,10 @@ func gen(tier string, rng *h.Rng, emit func(string)) {
 		q := bnref.Add2(randTwistPoint(rng), bnref.Mul2(rng.Big(r), bnref.G2Gen()))
 		emit("g2dec " + h.Hex(bnref.Enc2(q)))
 	}
-	for i := 0; i < pick(25, 300); i++ { // valid subgroup points
+	for i := 0; i < pick(150, 600); i++ { // valid subgroup points
 		emit("g2dec " + h.Hex(bnref.Enc2(bnref.Mul2(rng.Big(r), bnref.G2Gen()))))
 	}
-	for i := 0; i < pick(60, 2000); i++ {
+	for i := 0; i < pick(1500, 8000); i++ {
 		switch rng.Intn(3) {
 		case 0:
 			emit("g2dec " + h.Hex(rng.Bytes(rng.Intn(260))))
@@ -308,7 +308,7 @@ func gen(tier string, rng *h.Rng, emit func(string)) {
 			emit("gtdec " + h.Hex(s))
 		}
 		for bit := 0; bit < 3072; bit++ {
-			if !thorough && bit%16 != (3*bi)%16 {
+			if !thorough && bit%4 != (3*bi)%4 {
 				continue
 			}
 			emit("gtdec " + h.Hex(flip(E, bit)))
@@ -333,7 +333,7 @@ func gen(tier string, rng *h.Rng, emit func(string)) {
 		emit("gtdec " + h.Hex(make([]byte, 384)))
 		emit("gtdec " + h.Hex(make([]byte, 383)))
 	}
-	for i := 0; i < pick(20, 300); i++ {
+	for i := 0; i < pick(200, 1500); i++ {
 		emit("gtdec " + h.Hex(rng.Bytes(rng.Intn(800))))
 	}
 
@@ -353,7 +353,7 @@ func gen(tier string, rng *h.Rng, emit func(string)) {
 		emit("scdec " + h.Hex(flip(sE, bit)))
 		emit("scdec " + h.Hex(flip(be32(rm1), bit)))
 	}
-	for i := 0; i < pick(60, 1000); i++ {
+	for i := 0; i < pick(1000, 8000); i++ {
 		if rng.Intn(4) == 0 {
 			emit("scdec " + h.Hex(rng.Bytes(rng.Intn(70))))
 		} else {
